@@ -244,20 +244,6 @@ example :
   decide +kernel
 
 
-def h3Glob : Name → Option (V (RO α)) := fun x =>
-  if x = xStopIteration then some (.exc xStopIteration 0) else readGlob x
-
-def h3Mcall (E : REnv σ α) (fuel : Nat) (obj : V (RO α)) (m : Name) (args : List (V (RO α))) (kw : List (Name × V (RO α)))
-    (st : RSt σ) : X (RO α) (V (RO α)) × RSt σ :=
-  if m = 0x72656164 then                          -- read()
-    match obj, args with
-    | .host .self, [] => runFn (h2 E fuel) fuel fn_UBXReader_read [.host .self] st
-    | _, _ => (raiseX xUnsupported, st)
-  else h2Mcall E fuel obj m args kw st
-
-/-- host of `__next__`: `self.read()` is the translated `read()`; `raise StopIteration` raises an instance -/
-def h3 (E : REnv σ α) (fuel : Nat) : Host (RO α) (RSt σ) := { h2 E fuel with mcall := h3Mcall E fuel, glob := h3Glob }
-
 theorem h3_glob (E : REnv σ α) (f : Nat) : (h3 E f).glob = h3Glob := rfl
 theorem h3_mcall (E : REnv σ α) (f : Nat) : (h3 E f).mcall = h3Mcall E f := rfl
 theorem h3m_read (E : REnv σ α) (f : Nat) (kw : List (Name × V (RO α))) (st : RSt σ) :
